@@ -3,6 +3,7 @@ package histeng
 import (
 	"bytes"
 	"context"
+	"crypto/sha256"
 	"fmt"
 	"os"
 	"os/exec"
@@ -38,6 +39,31 @@ func NewSandboxAt(base, ws, bin string) (*Sandbox, error) {
 		}
 	}
 	return s, os.WriteFile(s.Trace, nil, 0o644)
+}
+
+// Relocate moves the checkout to a new path and moves its cache directory to the name grog derives from the new
+// path (<sha256(path)[:16]>-<basename>): the same cache restored next to a checkout that lives somewhere else.
+func (s *Sandbox) Relocate(newWS string) error {
+	oldPrefix, newPrefix := cachePrefix(s.WS), cachePrefix(newWS)
+	if err := os.MkdirAll(filepath.Dir(newWS), 0o755); err != nil {
+		return err
+	}
+	if err := os.Rename(s.WS, newWS); err != nil {
+		return err
+	}
+	if _, err := os.Stat(filepath.Join(s.Root, oldPrefix)); err == nil {
+		_ = os.RemoveAll(filepath.Join(s.Root, newPrefix))
+		if err := os.Rename(filepath.Join(s.Root, oldPrefix), filepath.Join(s.Root, newPrefix)); err != nil {
+			return err
+		}
+	}
+	s.WS = newWS
+	return nil
+}
+
+func cachePrefix(ws string) string {
+	sum := sha256.Sum256([]byte(ws))
+	return fmt.Sprintf("%x", sum)[:16] + "-" + filepath.Base(ws)
 }
 
 // ForgetRendered makes the next Sync rewrite every file (another machine may have touched the shared checkout).
